@@ -83,11 +83,16 @@ static void fixture(const char *p0, const char *p1, const char *enc1)
     "sindir SINDIR r16 sarray\n/ALIAS al raw\nlcbad LINCOM 1 missing 1 0\n"
     "raw/meta CONST UINT8 7\nraw/mstr STRING x\nraw/mph PHASE raw 1\n"
     "xph PHASE sraw 1\nxlc LINCOM 1 xph 1 0\nxbit BIT xlc 0 8\n"
+    /* scalars used as parameters by fields that sort before the entries that block their deletion */
+    "kc CONST UINT8 2\nab PHASE raw kc\nac RAW UINT8 kc\n/ALIAS kalias kc\n"
+    "kca CARRAY UINT8 1 2 3\nad BIT raw kca<1> 2\nkindir INDIR r16 kca\n"
+    "kc/mv PHASE raw 1\nkzz LINCOM 1 kc/mv 1 0\n"
+    "nofile RAW UINT8 1\n"      /* a RAW field whose data file does not exist */
     "/INCLUDE sub/format1\n/INCLUDE pre/format2 P_\n/REFERENCE raw\n", p0);
   wfile("format", fmt, strlen(fmt));
   snprintf(fmt, sizeof fmt,
     "/ENCODING %s\n/PROTECT %s\nsraw RAW UINT8 1\nsph PHASE sraw 1\nsconst CONST UINT8 1\n"
-    "scarray CARRAY UINT8 1 2 3\nsstring STRING s\nssarray SARRAY p q\n", enc1, p1);
+    "scarray CARRAY UINT8 1 2 3\nsstring STRING s\nssarray SARRAY p q\nskc CONST UINT8 3\nsnofile RAW UINT8 1\n", enc1, p1);
   wfile("sub/format1", fmt, strlen(fmt));
   /* fragment 2: included with a prefix, so that field codes there carry an affix */
   snprintf(fmt, sizeof fmt,
@@ -99,7 +104,8 @@ static void fixture(const char *p0, const char *p1, const char *enc1)
   for (i = 0; i < 100; i++) raw[i] = (unsigned char)i;
   for (i = 0; i < 50; i++) r16[i] = (int16_t)(i * 3 - 20);
   for (i = 0; i < 100; i++) rc[i] = (float)i / 2;
-  wfile("raw", raw, 100); wfile("r16", r16, 100); wfile("rc", rc, 400);
+  wfile("raw", raw, 100); wfile("r16", r16, 100); wfile("rc", rc, 400); wfile("ac", raw, 40);
+  wfile("nofile", raw, 10); wfile("sub/snofile", raw, 10);   /* removed again by the `rmfile` command where a missing file is wanted */
   wfile("lut.txt", "0 0\n100 200\n", 12);
   if (!strcmp(enc1, "text")) {
     for (i = 0; i < 20; i++) n += sprintf(txt + n, "%d\n", i + 1);
@@ -547,6 +553,7 @@ static int call(const char *op)
   OP("alter_recip") RET = gd_alter_recip(D, S(0), *A[1] == '!' ? NULL : S(1), Dd(2));
   OP("alter_indir") RET = gd_alter_indir(D, S(0), *A[1] == '!' ? NULL : S(1), *A[2] == '!' ? NULL : S(2));
   OP("alter_sindir") RET = gd_alter_sindir(D, S(0), *A[1] == '!' ? NULL : S(1), *A[2] == '!' ? NULL : S(2));
+  OP("alter_entry_sc") { gd_entry_t E; fill_entry(&E, S(0), I(1), 0, 0); E.scalar[0] = (char *)S(2); E.scalar_ind[0] = -1; RET = gd_alter_entry(D, S(0), &E, I(3)); }
   OP("alter_entry") { gd_entry_t E; fill_entry(&E, S(0), I(1), I(2), 0); RET = gd_alter_entry(D, S(0), &E, I(3)); }
   OP("rename") RET = gd_rename(D, S(0), S(1), (unsigned)X(2));
   OP("move") RET = gd_move(D, S(0), I(1), (unsigned)X(2));
@@ -624,6 +631,7 @@ int main(int argc, char **argv)
       printf("CASE %s open_err %d\n", id, gd_error(D));
       continue;
     }
+    if (!strcmp(cmd, "rmfile")) { char p[2600]; snprintf(p, sizeof p, "%s/%s", DD, rest ? rest : ""); printf("RMFILE %d\n", unlink(p)); continue; }
     if (!strcmp(cmd, "reopen")) { if (D) gd_discard(D); do_open(rest ? rest : "RDWR"); printf("REOPEN %d\n", gd_error(D)); continue; }
     if (!strcmp(cmd, "close")) { int r = D ? gd_close(D) : -1; if (r == 0) D = NULL; printf("CLOSE %d\n", r); continue; }
     if (!strcmp(cmd, "snap") || !strcmp(cmd, "dump") || !strcmp(cmd, "fsnap") || !strcmp(cmd, "fdump")) {
@@ -669,9 +677,19 @@ int main(int argc, char **argv)
           if (r != 2 || gd_error(D) || b[0] != 2 || b[1] != 3) probe_bad++;
         }
       }
-      if (n > 1 && !RSKIP)
-        printf("REP R %lld E %d EL %d NF %d DIRTY %d LMAX %d LEND %d PROBE %d INT %d\n", ret0, err0, errl, nfail, dirty, lvlmax,
-            D->recurse_level, probe_bad, internal);
+      if (n > 1 && !RSKIP) {
+        int fl = 0;
+        if (nfail == n && D) {
+          /* every call failed: nothing may be pending, so a metadata flush must not touch the directory */
+          uint64_t h1, h2; int lv = D->recurse_level;
+          snapshot(1); h1 = fnv(14695981039346656037ull, SN, SNlen);
+          gd_metaflush(D);
+          snapshot(1); h2 = fnv(14695981039346656037ull, SN, SNlen);
+          fl = (h1 != h2); D->recurse_level = lv;
+        }
+        printf("REP R %lld E %d EL %d NF %d DIRTY %d LMAX %d LEND %d PROBE %d INT %d FL %d\n", ret0, err0, errl, nfail, dirty, lvlmax,
+            D->recurse_level, probe_bad, internal, fl);
+      }
       continue;
     }
     printf("UNKNOWN-CMD %s\n", cmd);
